@@ -301,7 +301,7 @@ def result_shape(step, action):
     return (bool(spec.get("env")) and any(e[0].startswith("process:") for e in spec["env"]), spec.get("env") is None, bool(spec["exec_d"]), bool(spec["sboms"]))
 
 
-def run_history(mon, base, hid, steps, names, sh, snapshots_out=None):
+def run_history(mon, base, hid, steps, names, sh, snapshots_out=None, src_mtime=None):
     root = os.path.join(base, "h%s" % hid)
     layers = os.path.join(root, "layers")
     src = os.path.join(root, "src")
@@ -326,6 +326,10 @@ def run_history(mon, base, hid, steps, names, sh, snapshots_out=None):
         f.write(b"#!/bin/sh\necho pB\n")
     os.chmod(os.path.join(src, "p1b"), 0o755)
     os.symlink("p2", os.path.join(src, "p2l"))      # a source that is a symbolic link: what is installed is the program, not the link
+    if src_mtime is not None:
+        # (the age of the source files relative to what is installed from them is no input: C20 runs its processes with old, current and future sources)
+        for p in ("p1", "p2", "p3", "p1b"):
+            os.utime(os.path.join(src, p), (src_mtime, src_mtime))
     case = {"steps": jsonable(steps), "names": names, "_layers": layers, "umask": UMASK, "_layers_spelled": spelled}
     try:
         mon.call({"op": "init", "layers_dir": spelled or layers, "app_dir": os.path.join(root, "app"), "bp_dir": os.path.join(root, "bp"), "chdir": os.path.join(root, "app") if spelled else "/"})
